@@ -89,6 +89,13 @@ func (h *MultiHandler) Listen() <-chan *Message {
 
 // CanAccept returns true if the message is designated for this protocol protocol execution.
 func (h *MultiHandler) CanAccept(msg *Message) bool {
+	h.mtx.Lock()
+	defer h.mtx.Unlock()
+	return h.canAccept(msg)
+}
+
+// canAccept is CanAccept for callers that already hold the lock.
+func (h *MultiHandler) canAccept(msg *Message) bool {
 	r := h.currentRound
 	if msg == nil {
 		return false
@@ -140,7 +147,7 @@ func (h *MultiHandler) Accept(msg *Message) {
 	defer h.recoverFromMessage()
 
 	// exit early if the message is bad, or if we are already done
-	if !h.CanAccept(msg) || h.err != nil || h.result != nil || h.duplicate(msg) {
+	if !h.canAccept(msg) || h.err != nil || h.result != nil || h.duplicate(msg) {
 		return
 	}
 
